@@ -115,6 +115,20 @@ def run_selftest(prop, seed=0, out=sys.stdout, verbose=False):
             print('ANALYSIS-ERROR property=%s self-test whole-package variant "%s": %s' % (prop, kind, e), file=out)
         finally:
             shutil.rmtree(tmp, ignore_errors=True)
+    # record what the thorough tier covered in the evidence file
+    try:
+        import json
+        from .report import EVIDENCE_DIR
+        ep = os.path.join(EVIDENCE_DIR, '%s.json' % prop)
+        if os.path.exists(ep):
+            ev = json.load(open(ep))
+            ev['coverage']['selftest'] = {'corpus_entries': len(entries), 'results': counts, 'whole_package_variants': ['rename+roundtrip', 'private helper renames'],
+                                          'defects_of_the_checker': bad,
+                                          'rule': 'seeded variants must be caught, benign variants and whole-package behaviour-preserving transformations must stay silent; run on scratch copies, nothing is executed'}
+            ev['coverage']['evaluations'] = ev['coverage'].get('evaluations', 0) + len(entries) + 2
+            json.dump(ev, open(ep, 'w'), indent=1)
+    except Exception as e:                                  # pragma: no cover
+        print('   (could not record the self-test in the evidence file: %s)' % e, file=out)
     return 2 if bad else 0
 
 
